@@ -16,6 +16,11 @@
 //	           isolation and snapshot N (never more than N in flight);
 //	reuse      after exiting them the gauge is Held again.
 //
+// Variants: `double_exit` - every admitted parallel entry is exited by two goroutines at the same time
+// (an entry is exited once whatever the number of Exit calls: the gauge must not drop below the
+// entries still open); `mixed_types` - the callers classify the one resource name differently
+// (ResourceType, traffic type): the gauge is per resource name.
+//
 // Nothing depends on timing to pass; the leg is bounded by fixed counts and, as a safety net, by a
 // wall-clock budget that can only cut it short.  A panic of the code under test is reported as a
 // monitor failure.
@@ -40,12 +45,14 @@ const parBase = 200000
 
 type parCase struct {
 	ID     int    `json:"id"`
-	Held   int    `json:"held"`       // entries held open throughout
-	N      uint32 `json:"threshold"`  // threshold of the sequential phase (> Held)
-	G      int    `json:"goroutines"` // parallel callers per burst
-	Tx     int    `json:"tx"`         // Entry+Exit pairs per goroutine and burst
-	Rounds int    `json:"rounds"`     // bursts
-	Batch  uint32 `json:"batch"`      // batch count used by the parallel callers
+	Held   int    `json:"held"`        // entries held open throughout
+	N      uint32 `json:"threshold"`   // threshold of the sequential phase (> Held)
+	G      int    `json:"goroutines"`  // parallel callers per burst
+	Tx     int    `json:"tx"`          // Entry+Exit pairs per goroutine and burst
+	Rounds int    `json:"rounds"`      // bursts
+	Batch  uint32 `json:"batch"`       // batch count used by the parallel callers
+	Double bool   `json:"double_exit"` // every admitted parallel entry is exited by TWO goroutines at once (timeout goroutine + deferred Exit)
+	Mixed  bool   `json:"mixed_types"` // parallel callers use differing ResourceType / traffic type on the one resource name
 }
 
 func genPar(r *rng.R, id int) parCase {
@@ -56,6 +63,8 @@ func genPar(r *rng.R, id int) parCase {
 	c.Tx = int(r.PickI(10, 30, 60))
 	c.Rounds = int(r.PickI(10, 20, 30))
 	c.Batch = uint32(r.PickI(1, 1, 2))
+	c.Double = r.Chance(2, 3)
+	c.Mixed = r.Chance(1, 2)
 	return c
 }
 
@@ -110,6 +119,7 @@ func runPar(c parCase, deadline time.Time) (f *parFail, bursts int, admitted int
 		start := make(chan struct{})
 		for g := 0; g < c.G; g++ {
 			wg.Add(1)
+			g := g
 			go func() {
 				defer wg.Done()
 				defer func() {
@@ -119,13 +129,52 @@ func runPar(c parCase, deadline time.Time) (f *parFail, bursts int, admitted int
 						mu.Unlock()
 					}
 				}()
+				// the second exiter of this caller's entries
+				var second chan *base.SentinelEntry
+				var ack chan struct{}
+				if c.Double {
+					second, ack = make(chan *base.SentinelEntry), make(chan struct{})
+					go func() {
+						defer close(ack)
+						for e := range second {
+							func() {
+								defer func() {
+									if p := recover(); p != nil {
+										mu.Lock()
+										panics = append(panics, fmt.Sprint(p))
+										mu.Unlock()
+									}
+								}()
+								e.Exit()
+							}()
+							ack <- struct{}{}
+						}
+					}()
+				}
 				<-start
 				n := int64(0)
 				for i := 0; i < c.Tx; i++ {
-					if e, b := sentinel.Entry(res, sentinel.WithBatchCount(c.Batch)); b == nil {
-						n++
-						e.Exit()
+					opts := []sentinel.EntryOption{sentinel.WithBatchCount(c.Batch)}
+					if c.Mixed {
+						opts = append(opts, sentinel.WithResourceType(base.ResourceType((g+i)%5)))
+						if (g+i)%3 == 0 {
+							opts = append(opts, sentinel.WithTrafficType(base.Inbound))
+						}
 					}
+					if e, b := sentinel.Entry(res, opts...); b == nil {
+						n++
+						if c.Double {
+							second <- e
+							e.Exit()
+							<-ack
+						} else {
+							e.Exit()
+						}
+					}
+				}
+				if c.Double {
+					close(second)
+					<-ack
 				}
 				mu.Lock()
 				admitted += n
